@@ -14,6 +14,7 @@
 from __future__ import annotations
 
 import itertools
+from collections import defaultdict
 from collections.abc import Mapping
 from collections.abc import Sequence
 from typing import Any
@@ -91,10 +92,14 @@ def make_data() -> dict[str, Any]:
         "mixed": [1, "a", None, True, {"k": 1}, [1]],
         "num": 5,
         "nil": None,
+        # mappings that create an entry when a missing key is looked up with []
+        "ddict": defaultdict(list, {"k": [2, 1], "a": 1}),
+        "drows": [defaultdict(int, {"k": 2}), defaultdict(int, {"k": 1, "t": 5})],
     }
 
 
-PATHS = ["lst", "strs", "nested", "tup", "hash", "hash.list", "objs", "rng", "s", "sdrop", "mdrop", "mdrop.z", "mixed", "nested[1]", "objs[0]"]
+PATHS = ["lst", "strs", "nested", "tup", "hash", "hash.list", "objs", "rng", "s", "sdrop", "mdrop", "mdrop.z", "mixed", "nested[1]", "objs[0]",
+         "ddict", "drows", "ddict.nosuch", "drows[0].nosuch"]
 
 ARGVALS = ["", "1", "0", "-1", "'k'", "'a'", "','", "nil", "true", "lst", "hash", "objs", "x => x.k", "x => x", "(x, i) => i", "2, 1", "'k', 2", "'a', 'b'"]
 
@@ -229,6 +234,10 @@ def precedence_cases() -> list[dict[str, Any]]:
                 for block_kind in (("with", "for") if "block" in layers else ("none",)):
                     for local_kind in (("assign", "capture") if "local" in layers else ("none",)):
                         cases.append({"name": name, "layers": sorted(layers, key=ORDER.index), "block": block_kind, "local": local_kind})
+                        # the same subset with ONE layer binding the name to nil: a nil binding is a binding
+                        if name == "v" and local_kind != "capture":
+                            for nl in sorted(layers & {"block", "local", "arg", "matter", "tglobal", "eglobal"}, key=ORDER.index):
+                                cases.append({"name": name, "layers": sorted(layers, key=ORDER.index), "block": block_kind, "local": local_kind, "nil_layer": nl})
     return cases
 
 
@@ -236,28 +245,40 @@ def check_precedence(case: dict[str, Any], res: ShardResult | None) -> list[tupl
     out: list[tuple[str, Any, Any, Any]] = []
     n = case["name"]
     layers = case["layers"]
+    nil = case.get("nil_layer")
+
+    def val(layer: str, text: str) -> Any:
+        return None if layer == nil else text
+
     probe = "⟨{{ " + n + " }}⟩"
+    # the name read as a FREE name of a lambda body (the lambda is evaluated by a context-aware filter)
+    lprobe = "⟨{{ one | map: q => " + n + " | first }}⟩"
     pre = ""
     if "counter" in layers:
         pre += "{% increment " + n + " %}{% increment " + n + " %}|"  # counter value is now 2
     if "local" in layers:
-        pre += ("{% assign " + n + " = 'LOCAL' %}") if case["local"] == "assign" else ("{% capture " + n + " %}LOCAL{% endcapture %}")
+        if nil == "local":
+            pre += "{% assign " + n + " = nil %}"
+        else:
+            pre += ("{% assign " + n + " = 'LOCAL' %}") if case["local"] == "assign" else ("{% capture " + n + " %}LOCAL{% endcapture %}")
     inner = probe + "{% include 'probe' %}"
     if "block" in layers:
         if case["block"] == "with":
-            body = "{% with " + n + ": 'BLOCK' %}" + inner + "{% endwith %}"
+            body = "{% with " + n + ": " + ("nil" if nil == "block" else "'BLOCK'") + " %}" + inner + "{% endwith %}"
         else:
             body = "{% for " + n + " in blockvals %}" + inner + "{% endfor %}"
     else:
         body = inner
-    src = pre + body + probe + "{% include 'probe' %}"
-    loader = MatterLoader({"main": src, "probe": "⟪{{ " + n + " }}⟫"}, {n: "MATTER"} if "matter" in layers else {})
-    env = impl.make_env(loader=loader, globals={n: "EGLOBAL"} if "eglobal" in layers else None)
+    # after the block: direct probe, included probe, lambda probe, lambda probe in a RENDERED partial (isolated scope),
+    # then a lambda whose parameter has the probed name and which is left early (has), then the direct probe again
+    src = pre + body + probe + "{% include 'probe' %}" + lprobe + "{% render 'lprobe' %}{% assign zz = one | has: " + n + " => true %}" + probe
+    loader = MatterLoader({"main": src, "probe": "⟪{{ " + n + " }}⟫", "lprobe": "⟪{{ one | map: q => " + n + " | first }}⟫"}, {n: val("matter", "MATTER")} if "matter" in layers else {})
+    env = impl.make_env(loader=loader, globals={n: val("eglobal", "EGLOBAL"), "one": ["x"]} if "eglobal" in layers else {"one": ["x"]})
     try:
-        t = env.get_template("main", globals={n: "TGLOBAL"} if "tglobal" in layers else None)
-        args: dict[str, Any] = {"blockvals": ["BLOCK"]}
+        t = env.get_template("main", globals={n: val("tglobal", "TGLOBAL")} if "tglobal" in layers else None)
+        args: dict[str, Any] = {"blockvals": [val("block", "BLOCK")]}
         if "arg" in layers:
-            args[n] = "ARG"
+            args[n] = val("arg", "ARG")
         rendered = t.render(**args)
     except LiquidError as e:
         out.append((f"C10:precedence-render-fails:{type(e).__name__}", {**case, "source": src}, "renders", type(e).__name__))
@@ -270,14 +291,19 @@ def check_precedence(case: dict[str, Any], res: ShardResult | None) -> list[tupl
 
     vals = re.findall(r"[⟨⟪]([^⟩⟫]*)[⟩⟫]", rendered)
     # four probes: inside block (template, partial), after block (template, partial)
-    want_inside = _winner(layers, n)
-    want_after = _winner([l for l in layers if l != "block"], n)
-    wants = [want_inside, want_inside, want_after, want_after]
-    where = ["inside-block", "inside-block-partial", "after-block", "after-block-partial"]
+    def w(ls: list[str]) -> str:
+        x = _winner(ls, n)
+        return "undefined" if x == nil else x  # (a nil binding renders like an undefined name: as nothing)
+
+    want_inside = w(layers)
+    want_after = w([l for l in layers if l != "block"])
+    want_isolated = w([l for l in layers if l not in ("block", "local", "counter")])
+    wants = [want_inside, want_inside, want_after, want_after, want_after, want_isolated, want_after]
+    where = ["inside-block", "inside-block-partial", "after-block", "after-block-partial", "lambda-free-name", "lambda-free-name-in-rendered-partial", "after-early-exit-lambda"]
     if res is not None:
-        res.outcomes.add(h64([want_inside, want_after]))
-    if len(vals) != 4:
-        out.append(("C10:precedence-probe-count", {**case, "source": src}, 4, rendered))
+        res.outcomes.add(h64([want_inside, want_after, want_isolated]))
+    if len(vals) != len(wants):
+        out.append(("C10:precedence-probe-count", {**case, "source": src}, len(wants), rendered))
         return out
     for v, w, wh in zip(vals, wants, where):
         got = _classify_value(v)
